@@ -85,6 +85,40 @@ class SymList:
     def __pyvc_len__(self):
         return SV(self.n)
 
+    wrap = None   # element wrapper (e.g. SymRef for lists of tree nodes)
+
+    def elem(self, i):
+        v = z3.Select(self.arr, i)
+        return self.wrap(v) if self.wrap else v
+
+    def __pyvc_getitem__(self, engine, key, cx, lineno):
+        if isinstance(key, slice):
+            if key.step is not None or key.stop is not None or not isinstance(key.start or 0, int) or (key.start or 0) < 0:
+                raise Unsupported('SymList slice')
+            return SymListView(self, key.start or 0)
+        if isinstance(key, int):
+            if key >= 0:
+                cx.oblige(f'no-raise.IndexError@L{lineno}', self.n > key, 'no-raise', lineno)
+                return self.elem(z3.IntVal(key))
+            cx.oblige(f'no-raise.IndexError@L{lineno}', self.n >= -key, 'no-raise', lineno)
+            return self.elem(self.n + key)
+        raise Unsupported(f'SymList index {key!r}')
+
+
+class SymListView:
+    """lst[off:] of a symbolic list (iteration with a loop invariant)."""
+
+    def __init__(self, lst, off):
+        self.lst = lst
+        self.off = off
+
+    def length(self):
+        return z3.If(self.lst.n - self.off >= 0, self.lst.n - self.off, 0)
+
+    def get(self, i):
+        i = to_z3(i) if not isinstance(i, int) else z3.IntVal(i)
+        return self.lst.elem(i + self.off)
+
 
 class Stacked:
     """torch.stack(ys, dim=0) of a symbolic list."""
